@@ -8,6 +8,23 @@ package standard
 //@ // entry k of the payload is the subscription of (slot, committee) with the stored information
 //@ spec func subFor(sub *apiv1.BeaconCommitteeSubscription, info *beaconcommitteesubscriber.Subscription, sl phase0.Slot, ci phase0.CommitteeIndex) bool = sub != nil && sub.Slot == sl && sub.CommitteeIndex == ci && sub.ValidatorIndex == info.Duty.ValidatorIndex && sub.CommitteesAtSlot == info.Duty.CommitteesAtSlot && sub.IsAggregator == info.IsAggregator
 //@
+//@ // the subscription information computed from the duties of the epoch
+//@ spec func computedInfo() map[phase0.Slot]map[phase0.CommitteeIndex]*beaconcommitteesubscriber.Subscription
+//@
+//@ func (*Service).calculateSubscriptionInfo
+//@   requires s != nil
+//@   modifies nothing
+//@
+//@ func (*Service).Subscribe
+//@   requires s != nil && s.attesterDutiesProvider != nil && s.chainTimeService != nil && s.submitter != nil
+//@   assumes call AttesterDuties#1 (resp, err): err == nil ==> resp != nil
+//@   assumes call calculateSubscriptionInfo#1 (m): m == computedInfo() && (forall sl phase0.Slot, ci phase0.CommitteeIndex :: in(m, sl) && in(m[sl], ci) ==> m[sl][ci] != nil && m[sl][ci].Duty != nil)
+//@   // C14: what is returned (and stored by the controller to find the aggregators of every slot, the current one
+//@   // included) is the complete computed information: neither Subscribe nor the goroutine it starts removes or
+//@   // replaces entries of it (the frame below has no map contents in it)
+//@   ensures result1 == nil && len(accounts) > 0 ==> result0 == computedInfo()
+//@   modifies nothing
+//@
 //@ func (*Service).Subscribe$1
 //@   thread
 //@   ghost where (Array Int (Array Int Int))
